@@ -27,6 +27,9 @@ Step ==
        (* fixed by any property, but the other alerts' groups must come out as under one of the two readings         *)
        /\ Check("C17.entity-with-two-payloads", c, l,
                 e.hasFused => (e.fusedErr = "" /\ (e.fused = e.res.alerts \/ e.fused = e.withoutFirst)))
+       (* the first alert flagged is_deleted: ignored, or left out entirely - never half of each *)
+       /\ Check("C17.entity-flagged-deleted", c, l,
+                e.hasDeleted => (e.deleted = e.res.alerts \/ e.deleted = e.withoutFirst))
     /\ l' = l + 1
 Spec == Init /\ [][Step]_l
 TraceAccepted == TLCGet("stats").diameter - 1 = Len(Trace)
